@@ -9,6 +9,7 @@ from harness import gen_stacks as G
 mpmath.mp.dps = 80
 UNDEF = "undef"
 TINY = mpmath.mpf("1e-60")
+HUGE_TRIG = mpmath.mpf("1e40")
 
 
 class Skip(Exception):
@@ -30,10 +31,12 @@ def mp_op(node, a, b):
         return a * b
     if node == G.DIV:
         return UNDEF if b == 0 else a / b
-    if node == G.SIN:
-        return mpmath.sin(a)
-    if node == G.COS:
-        return mpmath.cos(a)
+    if node in (G.SIN, G.COS):
+        # the working precision (80 digits) resolves the argument modulo 2 pi only while the argument itself is far below 10^80:
+        # beyond 10^40 the value of sin / cos is not decidable here (sin(sinh(cosh(9))) is a 1759-digit argument)
+        if abs(a) > HUGE_TRIG:
+            raise Skip()
+        return mpmath.sin(a) if node == G.SIN else mpmath.cos(a)
     if node == G.EXP:
         if a > 10 ** 6:
             raise Skip()
